@@ -38,7 +38,13 @@ def perturb(rng, ts, kinds, phased=True):
         L = int(ts.sequence_length)
         free = [x for x in range(L) if float(x) not in used]
         rng.shuffle(free)
-        for x in free[: rng.randint(1, 3)]:
+        k = rng.randint(1, 3)
+        surplus = t.mutations.num_rows - t.sites.num_rows
+        if surplus > 0 and rng.random() < 0.6:
+            # as many mutation-free sites as there are surplus mutations on multi-mutation sites, so that
+            # num_sites == num_mutations although sites and mutations do not correspond one to one
+            k = surplus
+        for x in free[:k]:
             t.sites.add_row(position=float(x), ancestral_state="N")
     if "provenance" in kinds:
         t.provenances.add_row(record=json.dumps({"software": {"name": "perturb"}, "n": rng.random()}))
@@ -92,6 +98,8 @@ def one(ctx, rng):
     kinds = rng.sample(PERTURBATIONS, rng.randint(1, len(PERTURBATIONS)))
     if vg and rng.random() < 0.5 and "node_flag_bits" not in kinds:
         kinds.append("node_flag_bits")
+    if rng.random() < 0.5 and "monomorphic_sites" not in kinds:
+        kinds.append("monomorphic_sites")
     seed2 = rng.randrange(10**9)
     import random
     ts2 = perturb(random.Random(seed2), ts, kinds)
